@@ -852,6 +852,23 @@ func ruleCodecAgreement(c *Ctx, r *Report, rule string, spec *formatSpec) {
 			okNilEnc = true
 		}
 	}
+	if !okNilEnc {
+		// nil handled outside the type switch (after it, or in a helper): read off the interpreted encoder
+		if paths, und := c.encodeStores(enc, "nil", nil); len(und) == 0 && len(paths) > 0 {
+			all := true
+			for _, pth := range paths {
+				if len(pth) != 1 || !strings.HasPrefix(pth[0], "0=") {
+					all = false
+					break
+				}
+				v, err := strconv.ParseInt(strings.TrimPrefix(pth[0], "0="), 10, 64)
+				if err != nil || constNameOf(tcs, v) != "typeNIL" {
+					all = false
+				}
+			}
+			okNilEnc = all
+		}
+	}
 	da, okNilDec := decArms["typeNIL"]
 	r.check(okNilEnc, rule, "enc/NIL", "nil -> type code only", "valueToBytes must encode nil as the bare NIL type code", c.pos(enc.Pos()))
 	r.check(okNilDec && len(da.Calls) == 0, rule, "dec/NIL", "type code only -> nil", "valueFromBuf must decode NIL without reading a payload", c.pos(dec.Pos()))
